@@ -4,7 +4,7 @@
    check ties to the code on every run. *)
 From Coq Require Import List ZArith Bool Reals Lra Lia.
 From Coquelicot Require Import Coquelicot.
-From SC Require Import Base.Num C09.Model C09.ProofsSearch C09.ProofsGrad C09.ProofsGradMulti C09.ProofsStable C09.ProofsPredict C09.ProofsExamples.
+From SC Require Import Base.Num C09.Model C09.ProofsSearch C09.ProofsGrad C09.ProofsGradMulti C09.ProofsStable C09.ProofsConvex C09.ProofsConvexMulti C09.ProofsFit C09.ProofsFitEx C09.ProofsStrict C09.ProofsPredict C09.ProofsExamples.
 Import ListNotations.
 Local Open Scope R_scope.
 
@@ -50,39 +50,134 @@ Theorem C09_backtracking_gives_up_when_no_step_qualifies :
 Proof. exact bt_search_gives_up. Qed.
 
 (* LBFGS::optimize for EVERY objective f and "gradient" df (no smoothness, no convexity assumed; df only has to
-   return vectors of the dimension of its argument), every parameter setting with m > 0, every start: if it
-   returns, the recorded trace (f before, df0, alpha, f after) is a chain from f(x0) to f(returned x) whose
-   links (see `link`) start at some x, go along some s with df0 = <df x, s>, and either satisfy the Armijo
-   inequality at a positive step or stay at x (the line search gave up); hence along any run in which every
-   step that moved went along a non-ascent direction the objective never increases and the returned point is
-   no worse than the start. *)
+   map vectors of the problem's dimension n to vectors of dimension n), every parameter setting with m > 0,
+   every start of dimension n: if it returns, the returned point has dimension n and the recorded trace
+   (f before, df0, alpha, f after) is a chain from f(x0) to f(returned x) whose links (see `link`) start at
+   some x, go along some s with df0 = <df x, s>, and either satisfy the Armijo inequality at a positive step
+   or stay at x (the line search gave up); hence along any run in which every step that moved went along a
+   non-ascent direction the objective never increases and the returned point is no worse than the start. *)
 Theorem C09_lbfgs_monotone :
   forall (f : list R -> R) (df : list R -> list R) (L : lb_params) (B : bt_params),
-  0 <= bt_c1 B -> 0 < bt_plo B -> (0 < lb_m L)%nat -> (forall x, length (df x) = length x) ->
-  forall x0 st tr conv,
+  0 <= bt_c1 B -> 0 < bt_plo B -> (0 < lb_m L)%nat ->
+  forall n, (forall x, length x = n -> length (df x) = n) ->
+  forall x0 st tr conv, length x0 = n ->
   optimize ROps f df L B x0 = Some (st, tr, conv) ->
-  trace_mono f df B (f x0) tr (f (st_x st)) /\ (descent_trace tr -> f (st_x st) <= f x0).
+  trace_mono f df B n (f x0) tr (f (st_x st)) /\ length (st_x st) = n /\
+  (descent_trace tr -> f (st_x st) <= f x0).
 Proof. exact lbfgs_monotone. Qed.
 
-(* The convex route: if f lies above its tangents with slope df (a convex function and its gradient) and
-   c1 < 1, the descent hypothesis is not needed -- an Armijo-accepted positive step can only have been taken
-   along a non-ascent direction, whatever the two-loop recursion produced from its (possibly indefinite)
-   curvature pairs -- so EVERY returned run is monotone and ends no higher than it started. *)
+(* The convex route: if f lies above its tangents with slope df on dimension n (a convex function and its
+   gradient) and c1 < 1, the descent hypothesis is not needed -- an Armijo-accepted positive step can only have
+   been taken along a non-ascent direction, whatever the two-loop recursion produced from its (possibly
+   indefinite) curvature pairs -- so EVERY returned run is monotone and ends no higher than it started. *)
 Theorem C09_lbfgs_monotone_convex :
   forall (f : list R -> R) (df : list R -> list R) (L : lb_params) (B : bt_params),
-  0 <= bt_c1 B -> 0 < bt_plo B -> (0 < lb_m L)%nat -> (forall x, length (df x) = length x) ->
+  0 <= bt_c1 B -> 0 < bt_plo B -> (0 < lb_m L)%nat ->
+  forall n, (forall x, length x = n -> length (df x) = n) ->
   bt_c1 B < 1 ->
-  (forall x s a, length s = length x -> f x + a * vdot ROps (df x) s <= f (vadd ROps x (vscale ROps s a))) ->
-  forall x0 st tr conv,
+  (forall x s a, length x = n -> length s = n -> f x + a * vdot ROps (df x) s <= f (vadd ROps x (vscale ROps s a))) ->
+  forall x0 st tr conv, length x0 = n ->
   optimize ROps f df L B x0 = Some (st, tr, conv) ->
-  descent_trace tr /\ f (st_x st) <= f x0.
+  descent_trace tr /\ length (st_x st) = n /\ f (st_x st) <= f x0.
 Proof. exact lbfgs_monotone_convex. Qed.
 
 Example C09_lbfgs_monotone_convex_sat :
-  (forall x : list R, length ((fun v => v) x) = length x) /\
-  (forall x s a, length s = length x -> ex_sq x + a * vdot ROps ((fun v => v) x) s <= ex_sq (vadd ROps x (vscale ROps s a))) /\
+  (forall x : list R, length x = 3%nat -> length ((fun v => v) x) = 3%nat) /\
+  (forall x s a, length x = 3%nat -> length s = 3%nat ->
+     ex_sq x + a * vdot ROps ((fun v => v) x) s <= ex_sq (vadd ROps x (vscale ROps s a))) /\
   0 <= bt_c1 ex_bt < 1 /\ 0 < bt_plo ex_bt.
-Proof. split; [reflexivity|]. split; [exact ex_sq_tangent|]. cbn. lra. Qed.
+Proof.
+  split; [intros x H; exact H|]. split; [intros x s a Hx Hs; apply ex_sq_tangent; lia|]. cbn. lra.
+Qed.
+
+(* Convexity of the coded objectives: each lies above its tangents, the CODED gradient being the slope, for all
+   points and directions of the right dimension and every step a (softplus / log-sum-exp via Jensen for exp;
+   the inner product with the coded gradient is computed algebraically, no differentiation needed). *)
+Theorem C09_binary_objective_above_its_tangents :
+  forall p (x : list (list R)) (y : list nat) (alpha : R), List.Forall (fun r => length r = p) x ->
+  forall w s a, length w = S p -> length s = S p ->
+  binary_f_gen ROps lse_exact p x y alpha w + a * vdot ROps (binary_df_gen ROps sig_exact p x y alpha w) s
+  <= binary_f_gen ROps lse_exact p x y alpha (vadd ROps w (vscale ROps s a)).
+Proof. exact binary_tangent. Qed.
+
+Theorem C09_multiclass_objective_above_its_tangents :
+  forall p k (x : list (list R)) (y : list nat) (alpha : R),
+  List.Forall (fun r => length r = p) x -> List.Forall (fun c => (c < k)%nat) y ->
+  forall w s a, length w = (k * S p)%nat -> length s = (k * S p)%nat ->
+  multi_f_gen ROps softmax_def p k x y alpha w + a * vdot ROps (multi_df_gen ROps softmax_def p k x y alpha w) s
+  <= multi_f_gen ROps softmax_def p k x y alpha (vadd ROps w (vscale ROps s a)).
+Proof. exact multi_tangent. Qed.
+
+(* The monotonicity clause of the property as an exact-arithmetic theorem about the model of
+   LogisticRegression::fit (`lr_fit` = `lr_fit_gen ln_1pe sigmoid softmax`; here with the exact forms of the
+   three scalar functions): for every data set whose rows have p features, every label vector (arbitrary real
+   label values), every alpha, every L-BFGS / line-search parameter setting with 0 <= c1 < 1, plo > 0, m > 0 --
+   if fit returns a model M, then M has k >= 2 classes (k = number of distinct labels) and the objective at its
+   weights is <= the objective at the all-zero start.  No hypothesis on the two-loop directions. *)
+Theorem C09_logistic_fit_never_increases :
+  forall (L : lb_params (T := R)) (B : bt_params (T := R)) p (x : list (list R)) (y : list R) alpha M,
+  0 <= bt_c1 B < 1 -> 0 < bt_plo B -> (0 < lb_m L)%nat -> List.Forall (fun r => length r = p) x ->
+  lr_fit_gen ROps lse_exact sig_exact softmax_def L B p x y alpha = Some M ->
+  let k := length (unique ROps y) in
+  let yi := lr_class_indices y in
+  lr_k M = k /\ (2 <= k)%nat /\
+  lr_objective p k x yi alpha (lr_weights M)
+  <= lr_objective p k x yi alpha (zeros ROps (if Nat.eqb k 2 then S p else k * S p)%nat).
+Proof. exact logistic_fit_never_increases. Qed.
+
+(* satisfiable: a fit that returns (two rows [1] with labels 0 and 1: the gradient at the all-zero start is exactly
+   zero, so the optimiser stops before its first iteration), with admissible parameters *)
+Example C09_logistic_fit_never_increases_sat :
+  (exists M, lr_fit_gen ROps lse_exact sig_exact softmax_def (ex_L (1/100000000)) ex_bt 1 [[1]; [1]] [0; 1] 0 = Some M) /\
+  0 <= bt_c1 ex_bt < 1 /\ 0 < bt_plo ex_bt /\ (0 < lb_m (ex_L (1/100000000)))%nat /\
+  List.Forall (fun r : list R => length r = 1%nat) [[1]; [1]].
+Proof.
+  split; [apply ex_fit_returns; lra|]. split; [cbn; lra|]. split; [cbn; lra|]. split; [cbn; lia|]. repeat constructor.
+Qed.
+
+Example C09_objectives_above_their_tangents_sat :
+  List.Forall (fun r : list R => length r = 2%nat) [[1; 2]; [-3; 1/2]; [0; 4]] /\
+  List.Forall (fun c => (c < 3)%nat) [0%nat; 2%nat; 1%nat] /\
+  length [1/2; -1/4; 3; 0; 1; 2; -1; -1; 0] = (3 * 3)%nat /\ length [1/2; -1/4; 3] = 3%nat /\ 0 < 1/2.
+Proof. repeat split; repeat constructor; lra. Qed.
+
+(* Strong convexity in the weights for alpha > 0: the tangent inequality gains alpha/2 * a^2 * (squared length of
+   the weight part of s); hence any two stationary points of the penalised objective have the SAME weights.
+   (Nothing is claimed about the intercepts: for k >= 3 adding one constant to all intercepts leaves the
+   multinomial objective unchanged, so the optimum is unique only up to that flat direction.) *)
+Theorem C09_multiclass_penalised_optimum_unique_in_the_weights :
+  forall p k (x : list (list R)) (y : list nat) (alpha : R),
+  List.Forall (fun r => length r = p) x -> List.Forall (fun c => (c < k)%nat) y -> 0 < alpha ->
+  (forall w s a, length w = (k * S p)%nat -> length s = (k * S p)%nat ->
+     multi_f_gen ROps softmax_def p k x y alpha w + a * vdot ROps (multi_df_gen ROps softmax_def p k x y alpha w) s
+     + alpha / 2 * (a * a) * psum p k s s
+     <= multi_f_gen ROps softmax_def p k x y alpha (vadd ROps w (vscale ROps s a))) /\
+  (forall w w', length w = (k * S p)%nat -> length w' = (k * S p)%nat ->
+     (forall s, vdot ROps (multi_df_gen ROps softmax_def p k x y alpha w) s = 0) ->
+     (forall s, vdot ROps (multi_df_gen ROps softmax_def p k x y alpha w') s = 0) ->
+     forall i j, (i < k)%nat -> (j < p)%nat -> nth (i * S p + j) w' 0 = nth (i * S p + j) w 0).
+Proof.
+  intros p k x y alpha Hx Hy Ha. split.
+  - exact (multi_tangent_strong p k x y alpha Hx Hy Ha).
+  - exact (multi_stationary_same_weights p k x y alpha Hx Hy Ha).
+Qed.
+
+Theorem C09_binary_penalised_optimum_unique_in_the_weights :
+  forall p (x : list (list R)) (y : list nat) (alpha : R),
+  List.Forall (fun r => length r = p) x -> 0 < alpha ->
+  (forall w s a, length w = S p -> length s = S p ->
+     binary_f_gen ROps lse_exact p x y alpha w + a * vdot ROps (binary_df_gen ROps sig_exact p x y alpha w) s
+     + alpha / 2 * (a * a) * sumsq (firstn p s)
+     <= binary_f_gen ROps lse_exact p x y alpha (vadd ROps w (vscale ROps s a))) /\
+  (forall w w', length w = S p -> length w' = S p ->
+     (forall s, vdot ROps (binary_df_gen ROps sig_exact p x y alpha w) s = 0) ->
+     (forall s, vdot ROps (binary_df_gen ROps sig_exact p x y alpha w') s = 0) ->
+     forall j, (j < p)%nat -> nth j w' 0 = nth j w 0).
+Proof.
+  intros p x y alpha Hx Ha. split.
+  - exact (binary_tangent_strong p x y alpha Hx Ha).
+  - exact (binary_stationary_same_weights p x y alpha Hx Ha).
+Qed.
 
 (* The first L-BFGS direction is steepest descent, a strict descent direction unless the gradient is zero. *)
 Theorem C09_two_loop_first_step_is_steepest_descent :
